@@ -180,11 +180,12 @@ class Monitor:
         self.undo = []
 
 
-def make_dcop(spec, agent_names, capacity=1000):
+def make_dcop(spec, agent_names, capacity=1000, hosting=None):
+    """hosting: optional {agent: {computation: hosting cost}} (default hosting cost 0)."""
     from pydcop.dcop.objects import AgentDef
 
     dcop, variables = gen.build_dcop(spec)
-    dcop.add_agents([AgentDef(a, capacity=capacity) for a in agent_names])
+    dcop.add_agents([AgentDef(a, capacity=capacity, hosting_costs=dict((hosting or {}).get(a, {}))) for a in agent_names])
     return dcop
 
 
